@@ -62,7 +62,9 @@ class AuthorizationServer(_AuthorizationServer):
 
     def handle_response(self, status_code, payload, headers):
         if isinstance(payload, dict):
-            payload = json_dumps(payload)
+            # ASCII only: text that reached the payload through a JSON escape
+            # (an unpaired surrogate) has no UTF-8 encoding
+            payload = json_dumps(payload, ensure_ascii=True)
         resp = HttpResponse(payload, status=status_code)
         for k, v in headers:
             resp[k] = v
